@@ -14,7 +14,7 @@ structure RootCert (W : World) (q : Query) (ir : IRQuery) (ss : List Stage) (evs
   start : W.D.start q.rootEdge
       (Spec.completeParams (declParams W.senv [""] q.rootEdge) q.rootParams) =
     W.D.start ir.rootName ir.rootParams
-  node : NodeCert W false q.root W.comp.root [] ss evs
+  node : NodeCert W q.root W.comp.root [] ss evs
   merge : mergeStages W.comp.edges W.comp.folds (W.comp.edges.length + W.comp.folds.length) = .ok ss
   hyps : SimHyps W [] evs
   outs : OutsOK W (vtxs evs)
@@ -35,9 +35,9 @@ theorem interp_eq_spec_of_cert (W : World) (q : Query) (ir : IRQuery) (ss : List
     (evs : List Ev) (h : RootCert W q ir ss evs) :
     (interpret W.env ir).toOption = (Spec.rows W.senv q).toOption := by
   obtain ⟨V, evs', sfs, hvs, hV, hVid, hfl⟩ := h.node.dest
-  have h0 := nodeCert_stage_nil q.root W false W.comp.root [] ss evs h.node 63
+  have h0 := nodeCert_stage_nil q.root W W.comp.root [] ss evs h.node 63
   have hvisit : VisitOK [W.comp.root] ss :=
-    (visit_node q.root W false W.comp.root [] ss evs h.node (by simpa using h.hyps.nd)
+    (visit_node q.root W W.comp.root [] ss evs h.node (by simpa using h.hyps.nd)
       [W.comp.root] (by simp [evVid])).1
   rw [rows_toOption, World.senv_data, h.start]
   unfold interpret interpretFrom
@@ -58,10 +58,9 @@ theorem interp_eq_spec_of_cert (W : World) (q : Query) (ir : IRQuery) (ss : List
         (W.D.start ir.rootName ir.rootParams)) := by
     apply SimO.flatMapO
     intro x _
-    have := sim_node q.root W false W.comp.root [] ss evs h.node 64 63 h.fuel h.ifuel []
+    have := sim_node q.root W W.comp.root [] ss evs h.node 64 63 h.fuel h.ifuel []
       (Ctx.new (some x)) ⟨rfl, rfl, by simp [fvKeys, Ctx.new]⟩
       ⟨by simp [Ctx.new], by simp [Ctx.new, h.chain], by simp [h.chain]⟩ (by simpa using h.hyps)
-      (fun _ => rfl)
     simp only [nodeO, hV, List.nil_append, absL_nil] at this
     rw [← hl]
     exact this.mono fun c' hc' => hc'.2.1
